@@ -120,7 +120,7 @@ Section DapStepProofs.
   Theorem stepout_clean : forall fuel c i j,
     returns_to_caller ->
     frame_call opT c i -> returns_at opT c j -> i <= j ->
-    retT i = pcT c + 3 ->                                  (* Known_stepout_stack_dirty = false *)
+    Known_stepout_stack_dirty pcT retT c i = false ->
     spT i <= 253 ->
     (forall k, i <= k < j -> pcT k <> pcT c + 3) ->        (* no recursion through the call site *)
     (forall k, i <= k < j -> finT k = false) ->
@@ -131,6 +131,7 @@ Section DapStepProofs.
     pose proof (HR c j Hret) as Hp.
     unfold DapStep.step_out.
     assert (spT i >? 253 = false) by (rewrite Z.gtb_ltb; apply Z.ltb_ge; lia).
+    unfold Known_stepout_stack_dirty in Hclean. apply Bool.negb_false_iff, Z.eqb_eq in Hclean.
     rewrite H, Hclean.
     remember (Z.to_nat (j - i)) as d.
     assert (j = i + Z.of_nat d) by lia. subst j.
@@ -149,7 +150,7 @@ Definition w_ret := nthZ [1; 1; 1; 49159; 1544; 1544; 49159; 1; 1].
 (* stopped on `nop` (index 4, after the pha): the call at index 2 returns at index 7 (`inx`), stepOut runs to the brk *)
 Theorem stepout_dirty_refuted :
   frame_call w_op 2 4 /\ returns_at w_op 2 7 /\ w_pc 7 = w_pc 2 + 3 /\
-  w_ret 4 <> w_pc 2 + 3 /\
+  Known_stepout_stack_dirty w_pc w_ret 2 4 = true /\
   step_out w_pc w_sp w_op w_ret 100 4 = Some 8.
 Proof.
   assert (D : forall k, 2 < k < 7 -> depthZ w_op k > depthZ w_op 2).
